@@ -1573,6 +1573,10 @@ func (e *compiledFunctionLiteral) compile() (prg *Program, name unistring.String
 			if !s.argsInStash {
 				s.moveArgsToStash()
 			}
+			if firstForwardRef != -1 {
+				// no stack space is reserved for the parameter scope in this mode (see enterFunc1)
+				b.inStash = true
+			}
 			if s.strict {
 				b.isConst = true
 			} else {
